@@ -111,6 +111,7 @@ func Run(r *core.Run) {
 	type mj struct {
 		id  string
 		jwk map[string]any
+		key *keys.Key // the genuine key the JWK was derived from
 	}
 	var muts []mj
 	for _, t := range types {
@@ -133,7 +134,7 @@ func Run(r *core.Run) {
 				if t != "Ed25519" {
 					m["y"] = enc.EncodeToString(ny)
 				}
-				muts = append(muts, mj{base + "/" + name, m})
+				muts = append(muts, mj{base + "/" + name, m, k})
 			}
 			mk("unchanged", x, y)
 			coords := [][]byte{x}
@@ -173,17 +174,27 @@ func Run(r *core.Run) {
 			{
 				m := k.JWKMap()
 				delete(m, "x")
-				muts = append(muts, mj{base + "/x-member-missing", m})
+				muts = append(muts, mj{base + "/x-member-missing", m, k})
 				if t != "Ed25519" {
 					m2 := k.JWKMap()
 					delete(m2, "y")
-					muts = append(muts, mj{base + "/y-member-missing", m2})
+					muts = append(muts, mj{base + "/y-member-missing", m2, k})
 				}
 				m3 := k.JWKMap()
 				m3["x"] = nil
-				muts = append(muts, mj{base + "/x-null", m3})
+				muts = append(muts, mj{base + "/x-null", m3, k})
 			}
 			if t != "Ed25519" {
+				// the boundary between x and y moved inside the concatenated text: the same characters, both widths wrong
+				xs, ys := enc.EncodeToString(x), enc.EncodeToString(y)
+				for _, n := range []int{1, 2, len(ys) - 1} {
+					m := k.JWKMap()
+					m["x"], m["y"] = xs+ys[:n], ys[n:]
+					muts = append(muts, mj{fmt.Sprintf("%s/boundary-moved-right-%d", base, n), m, k})
+					m2 := k.JWKMap()
+					m2["x"], m2["y"] = xs[:len(xs)-n], xs[len(xs)-n:]+ys
+					muts = append(muts, mj{fmt.Sprintf("%s/boundary-moved-left-%d", base, n), m2, k})
+				}
 				mk("swapped", y, x)
 				mk("zero-point", make([]byte, w), make([]byte, w))
 				ny := new(big.Int).Sub(keys.Curve(t).Params().P, new(big.Int).SetBytes(y)).Bytes()
@@ -202,6 +213,23 @@ func Run(r *core.Run) {
 			err := j.UnmarshalJSON(b)
 			if (err == nil) != want {
 				return &core.Fail{Key: m.id, What: fmt.Sprintf("JWK %s: library says %v, the independent on-curve + width predicate says valid=%v", b, err, want), Detail: map[string]any{"jwk": m.jwk, "expected_valid": want}}
+			}
+			// the verification path, after the genuine key has been used in this process: a JWS made by the genuine key verifies under
+			// the mutated JWK only if that JWK is the genuine key (the independent verifier decides); a wrong-width or off-curve JWK never
+			if m.key != nil {
+				compact := m.key.SignCompact(m.key.Header(), []byte(`{"p":"`+m.id+`"}`))
+				var good, mut jws.JWK
+				gb, _ := json.Marshal(m.key.JWKMap())
+				_ = json.Unmarshal(gb, &good)
+				_ = json.Unmarshal(b, &mut)
+				if _, err := jwsutil.VerifyJWS(compact, &good); err != nil {
+					return &core.Fail{Key: m.id, What: "JWS by the genuine key does not verify under the genuine JWK: " + err.Error(), Detail: map[string]any{"jws": compact}}
+				}
+				_, wantV := rjws.Verify(compact, m.jwk)
+				_, err := jwsutil.VerifyJWS(compact, &mut)
+				if (err == nil) != wantV {
+					return &core.Fail{Key: m.id, What: fmt.Sprintf("after the genuine JWK was used, VerifyJWS under the mutated JWK %s says %v, the independent verifier says verifies=%v", b, err, wantV), Detail: map[string]any{"jwk": m.jwk, "jws": compact}}
+				}
 			}
 			if m.jwk["kty"] == "OKP" {
 				var lj jws.JWK
